@@ -44,9 +44,24 @@ CoverView == <<[st EXCEPT !.rRec.after = 0],
 FanCallers(s, m) ==
   LET helpful == {s.rules[ro] : ro \in Allowed(m)} \ {0} IN
   {Badges \ helpful} \cup {{b} : b \in helpful} \cup (IF Public(m) THEN {{}} ELSE {})
+\* Proposals that differ from a pending one in EXACTLY ONE component (primary / recovery / confirmation rule: another
+\* badge and DenyAll; the delay: one more and none / zero): every method that confirms or stops a pending proposal is
+\* called with each of them by each caller that is authorized - ExactProposal demands a refusal (RecoveryProposalMismatch).
+\* (Part of every fan, never sampled.)
+OneOff(p) ==
+  IF p = NoProp THEN {}
+  ELSE UNION {{[p EXCEPT !.rules[ro] = b] : b \in {(p.rules[ro] % Cardinality(Badges)) + 1, 0} \ {p.rules[ro]}} : ro \in {P, R, C}}
+       \cup {[p EXCEPT !.delay = d] : d \in {p.delay + 1, IF p.delay = -1 THEN 0 ELSE -1}}
+PendingFor(s, m) == CASE m = "qcPRec" -> s.pRec
+                      [] m = "qcRRec" -> s.rRec.prop
+                      [] m \in {"timedConfirm", "stopTimed"} /\ s.rRec.kind = "timed" -> s.rRec.prop
+                      [] OTHER -> NoProp
+AuthorizedFanCallers(s, m) == {c \in FanCallers(s, m) : Authorized(s, m, c)}
 FanOf(s, t) ==
   LET calls == UNION {{<<m, c, NoProp>> : c \in FanCallers(s, m)} : m \in MethodsPlain}
                \cup UNION {{<<m, c, p>> : c \in FanCallers(s, m), p \in Proposals} : m \in MethodsWithProposal}
+               \cup UNION {{<<m, c, p>> : c \in AuthorizedFanCallers(s, m), p \in OneOff(PendingFor(s, m))} :
+                             m \in {"qcPRec", "qcRRec", "timedConfirm", "stopTimed"}}
   IN {LET o == Step(s, t, x[1], x[2], x[3]) IN Rec(x[1], x[2], x[3], o.res, o.st, t, s) : x \in calls}
 EmitCover == PrintT(<<"B", ToJson([init |-> [st |-> InitState(st.delay), now |-> 0], path |-> hist, fan |-> FanOf(st, now)])>>)
 
